@@ -16,6 +16,37 @@ def digest(x):
     return hashlib.sha1(repr(x).encode()).hexdigest()[:16]
 
 
+_LARGE = {}
+
+
+def large_arrays(sp):
+    """~70000 elements of every kind: a catalogue of 97 random elements (one missing) tiled by concatenation"""
+    if _LARGE:
+        return _LARGE
+    from spatialpandas.geometry import (LineArray, MultiLineArray, MultiPointArray, MultiPolygonArray, PointArray, PolygonArray, RingArray)
+    r = np.random.RandomState(11)
+
+    def sq(x, y, w):
+        return [float(x), float(y), float(x + w), float(y), float(x + w), float(y + w), float(x), float(y + w), float(x), float(y)]
+
+    k = 97
+    xy = r.randint(0, 180, size=(k, 2))
+    w = r.randint(2, 40, size=k)
+    small = {
+        "point": PointArray([[float(a), float(b)] for a, b in xy]),
+        "multipoint": MultiPointArray([[float(a), float(b), float(a + c), float(b + 1)] for (a, b), c in zip(xy, w)]),
+        "line": LineArray([[float(a), float(b), float(a + c), float(b + c // 2), float(a), float(b + c)] for (a, b), c in zip(xy, w)]),
+        "multiline": MultiLineArray([[[float(a), float(b), float(a + c), float(b)], [float(a), float(b + c), float(a + c), float(b + c)]] for (a, b), c in zip(xy, w)]),
+        "ring": RingArray([sq(a, b, c) for (a, b), c in zip(xy, w)]),
+        "polygon": PolygonArray([[sq(a, b, c)] for (a, b), c in zip(xy, w)]),
+        "multipolygon": MultiPolygonArray([[[sq(a, b, c)], [sq(a + c + 3, b, c // 2 + 1)]] for (a, b), c in zip(xy, w)]),
+    }
+    for name, arr in small.items():
+        withna = type(arr)._concat_same_type([arr[:50], type(arr)([None], dtype=arr.dtype), arr[50:]])
+        _LARGE[name] = type(arr)._concat_same_type([withna] * 720)          # 98 * 720 = 70560 elements
+    return _LARGE
+
+
 def main():
     scheduler, workers, seed, repeat = sys.argv[1], int(sys.argv[2]), int(sys.argv[3]), int(sys.argv[4])
     import dask
@@ -66,6 +97,17 @@ def main():
                 # pandas level with numba kernels (thread count matters only through numba)
                 res["pandas_cx_index"] = [list(left.copy().build_sindex(page_size=16).cx[b[0]:b[1], b[2]:b[3]]["id"]) for b in boxes]
                 res["pandas_sjoin"] = sorted(map(tuple, sp.sjoin(left, right)[["id", "rid"]].values.tolist()))
+                # large arrays (a kernel may switch to a parallel build above a size threshold): every kind, > 2^16 elements
+                if rep == 0 or repeat <= 3:
+                    for name, big in large_arrays(sp).items():
+                        q = (30.5, 20.5, 120.5, 95.5)
+                        res[f"big_{name}_intersects_bounds"] = digest(np.asarray(big.intersects_bounds(q)).tobytes())
+                        inds = np.arange(len(big) - 1, -1, -3)
+                        res[f"big_{name}_intersects_bounds_inds"] = digest(np.asarray(big.intersects_bounds(q, inds)).tobytes())
+                        res[f"big_{name}_bounds"] = digest(np.asarray(big.bounds).tobytes())
+                        res[f"big_{name}_length_area"] = digest(np.asarray(big.length).tobytes() + np.asarray(big.area).tobytes())
+                        res[f"big_{name}_cx"] = digest(np.asarray(big.cx[q[0]:q[2], q[1]:q[3]].bounds).tobytes())
+                        res[f"big_{name}_hilbert"] = digest(np.asarray(big.hilbert_distance(p=12)).tobytes())
                 d = {k: digest(v) for k, v in res.items()}
                 for k, v in d.items():
                     if out.setdefault(k, v) != v:
